@@ -14,6 +14,7 @@ import (
 	"fmt"
 	"io"
 	"os"
+	"path/filepath"
 	"reflect"
 	"regexp"
 	"sort"
@@ -412,7 +413,7 @@ func genCmd(r *gen.Rand, d *meta2.Data) Cmd {
 		}
 		return c
 	case k < 22:
-		c := Cmd{K: "cdb", DB: r.Range(1, 3)}
+		c := Cmd{K: "cdb", DB: r.Range(1, 3), B1: r.Chance(1, 3)}
 		if r.Chance(3, 4) {
 			c.HasRP, c.RP, c.D, c.SGD = true, r.Range(1, 3), i64(0), i64(gen.Pick(r, sgd))
 		} else {
@@ -684,6 +685,15 @@ func corpus() []*Case {
 			{K: "csub", DB: 1, RP: 3, S1: "sub0", S2: "ALL", H: 1},
 			{K: "dsub", DB: 1, RP: 0, S1: "sub0"}, {K: "dsub", DB: 1, RP: 0, S1: "sub0"},
 		}),
+		// ids handed out while walking several databases and policies (ExpandGroups must walk them in a fixed order)
+		scripted("expand-groups-two-databases", 1, 12, 0, []Cmd{
+			{K: "cnode", H: 1, T: 1}, {K: "cdb", DB: 1, HasRP: true, RP: 1, D: i64(0), SGD: i64(Hour), B1: true},
+			{K: "cdb", DB: 2, HasRP: true, RP: 1, D: i64(0), SGD: i64(Hour)}, {K: "crp", DB: 1, RP: 2, D: i64(0), SGD: i64(Hour)},
+			{K: "cdb", DB: 3, HasRP: true, RP: 2, D: i64(0), SGD: i64(Hour)},
+			{K: "cmst", DB: 1, RP: 1, M: 1}, {K: "cmst", DB: 2, RP: 1, M: 1}, {K: "cmst", DB: 1, RP: 2, M: 2}, {K: "cmst", DB: 3, RP: 2, M: 2},
+			{K: "csg", DB: 1, RP: 1, TS: Base}, {K: "csg", DB: 2, RP: 1, TS: Base}, {K: "csg", DB: 1, RP: 2, TS: Base}, {K: "csg", DB: 3, RP: 2, TS: Base},
+			{K: "cnode", H: 2, T: 2}, {K: "expand"}, {K: "csg", DB: 2, RP: 1, TS: Base + 3*Hour},
+		}),
 		scripted("delayed-persist-subscriptions", 1, 5, 2, []Cmd{
 			{K: "cnode", H: 1, T: 1}, {K: "cdb", DB: 1, HasRP: true, RP: 1, D: i64(0), SGD: i64(Hour)},
 			{K: "csub", DB: 1, RP: 1, S1: "sub0", S2: "ALL", H: 1}, {K: "csub", DB: 1, RP: 1, S1: "sub1", S2: "ALL", H: 2},
@@ -769,6 +779,27 @@ func main() {
 				c.Name = fmt.Sprintf("%s#%d", c.Name, rep)
 			}
 			_ = enc.Encode(c)
+		}
+	}
+	if dir := os.Getenv("VERIF_CORPUS"); dir != "" {
+		ents, _ := os.ReadDir(dir)
+		for _, e := range ents {
+			if !strings.HasSuffix(e.Name(), ".case") {
+				continue
+			}
+			b, err := os.ReadFile(filepath.Join(dir, e.Name()))
+			if err != nil {
+				continue
+			}
+			var in Case
+			if json.Unmarshal(b, &in) != nil {
+				fmt.Fprintln(os.Stderr, "c15: bad corpus file", e.Name())
+				os.Exit(2)
+			}
+			if in.PtPer == 0 {
+				in.PtPer = 1
+			}
+			_ = enc.Encode(scripted("corpus:"+e.Name(), in.PtPer, in.SnapAt, in.Delay, in.Cmds))
 		}
 	}
 	r := gen.FromEnv(15)
